@@ -189,6 +189,9 @@ def current_qpm(ctx, ci, rule):
 
 
 def run(ctx):
+  from sa import pitfalls
+  pitfalls.apply(ctx, 'PITFALL', [fi_ for q_, fi_ in sorted(ctx.P.module('abc_parser').all_functions.items()) if '<locals>' not in q_], ['shadowed-literal-branch'], {
+      'shadowed-literal-branch': 'a notation the parser has a branch for (M:C| is cut time, 2/2) is read by the branch of another one (M:C, 4/4)'})
   current_qpm(ctx, ctx.cls('abc_parser:ABCTune'), 'TEMPO/last-read-governs')
   tune_separation(ctx, 'TUNES/blank-line-separation')
   bare_tempo_unit(ctx, ctx.cls('abc_parser:ABCTune'), 'TEMPO/bare-unit-current')
